@@ -708,7 +708,7 @@ func (w *Wallet) createSwapRequest(proofs cashu.Proofs, mint *walletMint) (swapR
 
 func swap(mint string, swapRequest swapRequestPayload) (cashu.Proofs, error) {
 	request := nut03.PostSwapRequest{
-		Inputs:  swapRequest.inputs,
+		Inputs:  proofsWithoutDLEQ(swapRequest.inputs),
 		Outputs: swapRequest.outputs,
 	}
 	swapResponse, err := client.PostSwap(mint, request)
@@ -925,7 +925,7 @@ func (w *Wallet) Melt(quoteId string) (*nut05.PostMeltQuoteBolt11Response, error
 
 	meltBolt11Request := nut05.PostMeltBolt11Request{
 		Quote:   quote.QuoteId,
-		Inputs:  proofs,
+		Inputs:  proofsWithoutDLEQ(proofs),
 		Outputs: outputs,
 	}
 	meltBolt11Response, err := client.PostMeltBolt11(mint.mintURL, meltBolt11Request)
@@ -1196,7 +1196,7 @@ func (w *Wallet) swapProofs(proofs cashu.Proofs, from, to *walletMint) (uint64, 
 	}
 
 	// request from mint to pay invoice from the mint quote request
-	meltBolt11Request := nut05.PostMeltBolt11Request{Quote: meltQuoteResponse.Quote, Inputs: proofs}
+	meltBolt11Request := nut05.PostMeltBolt11Request{Quote: meltQuoteResponse.Quote, Inputs: proofsWithoutDLEQ(proofs)}
 	meltBolt11Response, err := client.PostMeltBolt11(from.mintURL, meltBolt11Request)
 	if err != nil {
 		return 0, fmt.Errorf("error melting token: %v", err)
@@ -1434,7 +1434,7 @@ func (w *Wallet) swapToSend(
 	cashu.SortBlindedMessages(blindedMessages, secrets, rs)
 
 	// call swap endpoint
-	swapRequest := nut03.PostSwapRequest{Inputs: proofsToSwap, Outputs: blindedMessages}
+	swapRequest := nut03.PostSwapRequest{Inputs: proofsWithoutDLEQ(proofsToSwap), Outputs: blindedMessages}
 	swapResponse, err := client.PostSwap(mint.mintURL, swapRequest)
 	if err != nil {
 		return nil, err
@@ -1713,6 +1713,18 @@ func blindedMessagesFromSpendingCondition(
 	}
 
 	return blindedMessages, secrets, rs, nil
+}
+
+// proofsWithoutDLEQ returns a copy of the proofs without their DLEQ proof. The DLEQ proof
+// kept in a Proof has the blinding factor r, which the mint could use to link the proof
+// to the blinded message it signed. So it must never be part of a request to the mint.
+func proofsWithoutDLEQ(proofs cashu.Proofs) cashu.Proofs {
+	inputs := make(cashu.Proofs, len(proofs))
+	for i, proof := range proofs {
+		proof.DLEQ = nil
+		inputs[i] = proof
+	}
+	return inputs
 }
 
 // constructProofs unblinds the blindedSignatures and returns the proofs
